@@ -51,7 +51,17 @@ impl TypeSpace {
 
         let non_null = non_nulls.into_iter().next()?;
 
-        let (type_entry, _) = self.convert_option(type_name, metadata, non_null).ok()?;
+        // As for the `"type": [T, "null"]` form: if this type requires a name
+        // (it becomes a newtype wrapper around the Option) the inner type
+        // needs a name of its own.
+        let inner_type_name = match &type_name {
+            Name::Required(name) => Name::Suggested(format!("{}Inner", name)),
+            _ => type_name,
+        };
+
+        let (type_entry, _) = self
+            .convert_option(inner_type_name, metadata, non_null)
+            .ok()?;
 
         Some(type_entry)
     }
